@@ -29,6 +29,7 @@ ASSUMPTIONS = [
     "ruff is replaced by an identity stand-in when the plugin formats its output",
 ]
 FLOORS = {"quick": {"histories": 3000, "copies_checked": 6000}, "thorough": {"histories": 120000, "copies_checked": 250000}}
+ANCHORS = ['Message.__copy__', 'Message.__deepcopy__', 'Message.__reduce__', 'Message.to_pydict', 'Message.to_dict', 'Message.__getattribute__']
 CONTRACTS = []
 RECIPES = ("ctor", "inplace", "parse", "parse-unknown", "from_dict")
 
